@@ -18,7 +18,7 @@ META = {
     "rule": "case = two-sided history over disjoint objects (family DISJ: ownership by top-level entry of a synchronised "
             "base tree with nested folders; deletes, renames, moves, edits, mkdir/rmdir, isolated folder renames with "
             "children), flavour x shape round-robin, 4-12 ops; distinct = distinct case signature; non-trivial = >= 1 "
-            "engine write after the base tree.  plus family REUSE2 (a third of the cases: both sides take names again that they vacated in an earlier window, within the top-level entries they own); plus family SWAP (one side exchanges or rotates the names of 2-3 synchronised files through a temporary name in one window with no sync step in between, the other side creating/editing its own files); plus family NEST (folder renames/moves on one side racing with file create/write/in-place rename/move-in inside them on the other side, id-stable providers, object-addressed ops, object-graph expectation).  thorough adds un-isolated folder renames / name re-use (attributed to K1/K2 or reported)",
+            "engine write after the base tree.  plus family REUSE2 (a third of the cases: both sides take names again that they vacated in an earlier window, within the top-level entries they own); plus family DEEPMK (mkdir two levels below a folder renamed in the same window, path-id actor, no sync step between); plus family SWAP (one side exchanges or rotates the names of 2-3 synchronised files through a temporary name in one window with no sync step in between, the other side creating/editing its own files); plus family NEST (folder renames/moves on one side racing with file create/write/in-place rename/move-in inside them on the other side, id-stable providers, object-addressed ops, object-graph expectation).  thorough adds un-isolated folder renames / name re-use (attributed to K1/K2 or reported)",
     "assumptions": ["expected tree = base with both sides' deltas applied on a plain dict model (possible because objects are disjoint)"],
 }
 
@@ -87,6 +87,18 @@ def shard(ctx, acc):
                 acc.known_hit(ks[0], W.brief_case(case))
             else:
                 acc.violation("seek:" + probs[0][0], probs[:4], case)
+    # DEEPMK: a folder created two or more levels below a folder that is renamed in the same window by the same user, on a
+    # path-id side, with no sync step in between (burst / intake).  HD by the letter; measured tolerated (0 of 8 000 on the
+    # pinned tree) - with an id-stable acting side, or with sync steps between the two operations, it is K1 territory.
+    for i in F.indices(ctx, plan["cases"] // 8):
+        case = F.make_case(ctx.seed, PROP + "deepmk", i, families=("DEEPMK",), flavours=("po", "pp", "op"),
+                           shapes=("burst", "intake"), nops=(4, 9))
+        probs = run(case, acc)
+        if probs is None:
+            continue
+        acc.count("deepmk_cases")
+        if probs:
+            acc.violation("deepmk:" + probs[0][0], probs[:4], case)
     # NEST: folder renames / moves on one side racing with content operations inside those folders on the other side
     # (id-stable providers, object-addressed operations, object-graph expectation)
     for i in F.indices(ctx, plan.get("nest", 0)):
